@@ -120,7 +120,7 @@ def oracle_file(case):
     names = case.get("names") or ["VALA", "API", "uwi", "Api", "UWI", "APIN", "UWID", "XAPI", "api2", "Uwi_2", "MUWI", "A", "PI", "W", "uw", "IU", "I"]
     v12 = case.get("v12", False)
     it = lambda m: lastext.item(m, "", s, "descr")
-    vsec = [lastext.item("VERS", "", "1.2" if v12 else "2.0", "v"), lastext.item("WRAP", "", "NO", "w"), it("XV")]
+    vsec = [lastext.item("VERS", "", case.get("vers") or ("1.2" if v12 else "2.0"), "v"), lastext.item("WRAP", "", "NO", "w"), it("XV")]
     wsec = [lastext.item("STRT", "M", "1", ""), lastext.item("STOP", "M", "2", ""), lastext.item("STEP", "M", "1", ""),
             lastext.item("NULL", "", "-999.25", "")] + [it(m) for m in names]
     # section titles in either letter case: which values convert depends on the KIND of the section, not on its spelling
@@ -133,7 +133,7 @@ def oracle_file(case):
     spec = {"nl": "\n", "final_nl": True, "sections": secs}
     mc = case.get("mnemonic_case", "preserve")
     las = read_spec(spec, mnemonic_case=mc)
-    out.cls("file", "mc-" + mc, "v12" if v12 else "v20")
+    out.cls("file", "mc-" + mc, "v12" if v12 else ("v30" if case.get("vers") == "3.0" else "v20"))
     out.nontrivial = True
     out.sample = dict(s=s, names=names)
     if is_raised(las):
@@ -173,6 +173,10 @@ def named_files(tier):
                 yield {"file": 1, "s": s, "mnemonic_case": mc, "v12": v12}
                 if mc == "preserve":
                     yield {"file": 1, "s": s, "mnemonic_case": mc, "v12": v12, "titles": "lower"}
+                if mc == "upper" and not v12:
+                    # a file that declares VERS 3.0 but is laid out like a 2.0 file (lasio's partial 3.0 support): the
+                    # kinds of its sections, and so which values convert, are the same
+                    yield {"file": 1, "s": s, "mnemonic_case": mc, "v12": False, "vers": "3.0"}
     # 1/50 sample of the short-string space
     for i, c in enumerate(strings("quick" if tier == "quick" else "quick")):
         if i % (50 if tier == "thorough" else 400) == 7 and ":" not in c["s"]:
